@@ -176,9 +176,11 @@ def juxtaposable(e):
 
 
 class Printer:
-    def __init__(self):
+    def __init__(self, wrap=None):
         self.toks = []
         self.pending = "opt"
+        self.wrap = set(wrap or ())      # node ids to put redundant parentheses around (outside words only)
+        self.wrapped = set()
 
     def tok(self, s, kind, node=None, pre=None):
         p = pre if pre is not None else self.pending
@@ -195,6 +197,14 @@ class Printer:
         """ctx: minimal precedence allowed without parentheses"""
         nid = ids.get(id(e))
         p = prec(e, insub)
+        if nid in self.wrap and not insub and nid not in self.wrapped:
+            self.wrapped.add(nid)
+            self.tok("(", "lparen", nid)
+            self.pending = "opt"
+            self.expr(e, 0, insub, ids)
+            self.need("opt")
+            self.tok(")", "rparen", nid)
+            return
         if p < ctx:
             self.tok("(", "lparen", nid)
             self.pending = "opt"
@@ -295,7 +305,7 @@ def assign_ids(e, nodes, ids):
     return len(nodes)
 
 
-def statements_tokens(variants, defs, assign="=", semi=True):
+def statements_tokens(variants, defs, assign="=", semi=True, order=None, wrap=None):
     """variants: [(cmdname, tree)], defs: [(name, shell|'' , tree)] -> tokens, arena info"""
     nodes, ids = [], {}
     vs, ds = [], []
@@ -303,28 +313,33 @@ def statements_tokens(variants, defs, assign="=", semi=True):
         vs.append({"name": name, "root": assign_ids(t, nodes, ids)})
     for (name, sh, t) in defs:
         ds.append({"name": name, "sh": sh, "root": assign_ids(t, nodes, ids)})
-    p = Printer()
+    p = Printer(wrap)
     stm = []
-    for si, (name, t) in enumerate(variants):
-        p.pending = "opt"
-        p.tok(esc_lit(name), "cmdname", None)
-        p.toks[-1]["stmt"] = len(stm)
-        p.pending = "req"
-        p.expr(t, 0, False, ids)
-        p.need("opt")
-        p.tok(";", "semi", None, pre="opt" if p.pending == "none" else None)
-        stm.append(("variant", si))
-    for di, (name, sh, t) in enumerate(defs):
-        p.pending = "opt"
-        p.tok("<" + name + ("@" + sh if sh else "") + ">", "defname", None)
-        p.toks[-1]["stmt"] = len(stm)
-        p.pending = "opt"
-        p.tok(assign, "assign", None)
-        p.pending = "opt"
-        p.expr(t, 0, False, ids)
-        p.need("opt")
-        p.tok(";", "semi", None, pre="opt" if p.pending == "none" else None)
-        stm.append(("def", di))
+    if order is None:
+        order = [("v", i) for i in range(len(variants))] + [("d", i) for i in range(len(defs))]
+    for which, idx in order:
+        if which == "v":
+            name, t = variants[idx]
+            p.pending = "opt"
+            p.tok(esc_lit(name), "cmdname", None)
+            p.toks[-1]["stmt"] = len(stm)
+            p.pending = "req"
+            p.expr(t, 0, False, ids)
+            p.need("opt")
+            p.tok(";", "semi", None, pre="opt" if p.pending == "none" else None)
+            stm.append(("variant", idx))
+        else:
+            name, sh, t = defs[idx]
+            p.pending = "opt"
+            p.tok("<" + name + ("@" + sh if sh else "") + ">", "defname", None)
+            p.toks[-1]["stmt"] = len(stm)
+            p.pending = "opt"
+            p.tok(assign if isinstance(assign, str) else assign[idx % len(assign)], "assign", None)
+            p.pending = "opt"
+            p.expr(t, 0, False, ids)
+            p.need("opt")
+            p.tok(";", "semi", None, pre="opt" if p.pending == "none" else None)
+            stm.append(("def", idx))
     if not semi and p.toks and p.toks[-1]["kind"] == "semi":
         p.toks.pop()
     return p.toks, {"nodes": nodes, "variants": vs, "defs": ds}
